@@ -5,6 +5,8 @@
   gcmformat engine (refcodec, an independent implementation of the documented format).
 -/
 import CedarProofs.Nonce
+import CedarGen.Literals
+import CedarModel.Codec
 
 namespace Cedar.C12
 
@@ -91,6 +93,16 @@ theorem iv_once {s s' : Stream} {k iv dg c data flag f}
 theorem setKey_resets (s : Stream) (k : Nat) (iv : IV) :
     (s.setKey k iv).encIV = iv ∧ (s.setKey k iv).encCtr = 0 ∧ (s.setKey k iv).decCtr = 0 ∧
     (s.setKey k iv).key = some k ∧ (s.setKey k iv).encrypted = true := ⟨rfl, rfl, rfl, rfl, rfl⟩
+
+/-- **size_literals_are_the_code** (tie T): the sizes the format theorems are stated with — the
+    16-byte GCM tag, the 16-byte IV sent with a direction's first frame (frame counter 0), and the
+    32 bytes of room the typed layer leaves for both on an encrypted stream — are the integer
+    literals of `stream.calculateEncryptedSize` and `message.maxFramePayload`, regenerated from the
+    source on every run (`tools/gen/literals.go`). -/
+theorem size_literals_are_the_code :
+    CedarGen.Literals.calculateEncryptedSize = [tagLen, 0, ivLen] ∧
+    CedarGen.Literals.maxFramePayload = [gcmRoom] ∧ gcmRoom = tagLen + ivLen := by
+  decide
 
 /-! Non-vacuity (tests): a history with secrets toggled and a nonce word that wraps while the
     counter does not. -/
